@@ -158,7 +158,10 @@ func buildRequests(liveAck, staleAck, foreignAck string) []c16req {
 	subNames := []string{"projects/p/subscriptions/s0", "projects/p/subscriptions/unknown", "projects/p/topics/t0", "", "projects/p/subscriptions/", "garbage"}
 	snapNames := []string{"projects/p/snapshots/n0", "projects/p/snapshots/unknown", "projects/p/subscriptions/s0", "", "garbage"}
 	ackSets := map[string][]string{"none": nil, "live": {liveAck}, "stale": {staleAck}, "foreign": {foreignAck}, "garbage": {"not-a-uuid"},
-		"empty-string": {""}, "unknown": {uuid.New().String()}, "mixed": {liveAck, staleAck, uuid.New().String()}, "mixed-garbage": {liveAck, "zzz"}, "dup": {liveAck, liveAck}}
+		"empty-string": {""}, "unknown": {uuid.New().String()}, "mixed": {liveAck, staleAck, uuid.New().String()}, "mixed-garbage": {liveAck, "zzz"}, "dup": {liveAck, liveAck},
+		// garbage of exactly the canonical length of a UUID (36 bytes): not hex, no dashes, a live id with one character damaged
+		"garbage-36": {strings.Repeat("z", 36)}, "hex-36": {strings.Repeat("0123456789abcdef", 2) + "0123"}, "damaged-live": {liveAck[:7] + "g" + liveAck[8:]},
+		"mixed-garbage-36": {liveAck, strings.Repeat(" ", 36)}}
 	P := func(cc *grpc.ClientConn) pubsubpb.PublisherClient { return pubsubpb.NewPublisherClient(cc) }
 	S := func(cc *grpc.ClientConn) pubsubpb.SubscriberClient { return pubsubpb.NewSubscriberClient(cc) }
 	for _, n := range topicNames {
@@ -266,8 +269,9 @@ func buildRequests(liveAck, staleAck, foreignAck string) []c16req {
 		vals []func(s *pubsubpb.Subscription)
 		desc []string
 	}
-	durs := []*durationpb.Duration{nil, dur(-time.Second), dur(0), dur(time.Second), dur(10 * time.Minute), {Seconds: math.MaxInt64}, {Seconds: math.MinInt64}, {Seconds: 1, Nanos: -5}}
-	durDesc := []string{"absent", "-1s", "0", "1s", "10m", "maxint64 s", "minint64 s", "invalid(1s,-5ns)"}
+	durs := []*durationpb.Duration{nil, dur(-time.Second), dur(0), dur(time.Second), dur(10 * time.Minute), {Seconds: math.MaxInt64}, {Seconds: math.MinInt64}, {Seconds: 1, Nanos: -5},
+		{Nanos: 1}, {Nanos: 999}, {Nanos: -1}, dur(time.Microsecond)} // (also: positive and negative durations below the microsecond)
+	durDesc := []string{"absent", "-1s", "0", "1s", "10m", "maxint64 s", "minint64 s", "invalid(1s,-5ns)", "1ns", "999ns", "-1ns", "1us"}
 	var facs []sfac
 	{
 		f := sfac{name: "name"}
@@ -487,7 +491,7 @@ func buildRequests(liveAck, staleAck, foreignAck string) []c16req {
 		}
 		for _, mo := range []int64{math.MinInt64, -1, 0, 1, math.MaxInt64} {
 			mo := mo
-			for an, ids := range map[string][]string{"none": nil, "garbage": {"zzz"}, "live": {liveAck}} {
+			for an, ids := range map[string][]string{"none": nil, "garbage": {"zzz"}, "live": {liveAck}, "garbage-36": {strings.Repeat("z", 36)}} {
 				ids, an := ids, an
 				add("StreamingPull", fmt.Sprintf("sub=%q outstanding=%d ids=%s", n, mo, an), func(ctx context.Context, cc *grpc.ClientConn) error {
 					ctx, cancel := context.WithTimeout(ctx, 1500*time.Millisecond)
